@@ -75,6 +75,20 @@ def run_case(args):
                     got = [enc(str(f)) for f in dbi.all_features()]
                     if len(got) != len(o["printed"]):
                         fails.append(("stored_once_oneshot_" + form, [dec(x) for x in got]))
+            # the same file reached through a file:// URL, gzipped, and WITHOUT a newline after its last line
+            if k % 3 == 1:
+                import gzip
+                with gzip.open(path + ".u.gz", "wt", encoding="utf-8") as f:
+                    f.write(text[:-1])
+                try:
+                    dbu = gffutils.create_db("file://" + path + ".u.gz", ":memory:", checklines=c["cl"], merge_strategy="create_unique", keep_order=True)
+                    got = [enc(str(f)) for f in dbu.all_features()]
+                    if got != o["printed"]:
+                        fails.append(("stored_once_url_gz", [dec(x) for x in got]))
+                except Exception as e:  # noqa
+                    fails.append(("stored_once_url_gz_raised:" + type(e).__name__, None))
+                finally:
+                    os.unlink(path + ".u.gz")
             # sort_attribute_values
             db.sort_attribute_values = True
             ps = [enc(str(f)) for f in db.all_features()]
@@ -286,4 +300,4 @@ def replay(ctx, rec):
     j["consistent"] = c.get("consistent", False)
     if c.get("scaled_reps"):
         return run_scaled(j, c["scaled_reps"], ctx.path("c01_scaled_replay.gff"))[0] is not None
-    return bool(run_case((j, ctx.scratch, 0, True)))
+    return any(bool(run_case((j, ctx.scratch, kk, True))) for kk in (0, 1, 2))      # (the optional sections of run_case rotate with the case index)
